@@ -49,11 +49,11 @@ pub trait EbmlSpecification: Sized + Clone {
     spec fn sp_type(id: u64) -> Option<TagDataType>;
     spec fn sp_id(&self) -> u64;
     spec fn sp_master(&self) -> Option<Master<Self>>;
-    spec fn sp_has_uint(&self) -> bool;
-    spec fn sp_has_int(&self) -> bool;
-    spec fn sp_has_utf8(&self) -> bool;
-    spec fn sp_has_binary(&self) -> bool;
-    spec fn sp_has_float(&self) -> bool;
+    spec fn sp_uint(&self) -> Option<u64>;
+    spec fn sp_int(&self) -> Option<i64>;
+    spec fn sp_str(&self) -> Option<Seq<char>>;
+    spec fn sp_bin(&self) -> Option<Seq<u8>>;
+    spec fn sp_float(&self) -> Option<f64>;
     spec fn height(&self) -> nat;
     fn get_tag_data_type(id: u64) -> (r: Option<TagDataType>) ensures r == Self::sp_type(id);
     fn get_id(&self) -> (r: u64) ensures r == self.sp_id();
@@ -61,23 +61,23 @@ pub trait EbmlSpecification: Sized + Clone {
         ensures
             (match r { Some(m) => self.sp_master() == Some(*m), None => self.sp_master() is None }),
             r matches Some(Master::Full(c)) ==> forall|i: int| 0 <= i < c@.len() ==> (#[trigger] c@[i]).height() < self.height();
-    fn as_unsigned_int(&self) -> (r: Option<&u64>) ensures r is Some == self.sp_has_uint();
-    fn as_signed_int(&self) -> (r: Option<&i64>) ensures r is Some == self.sp_has_int();
-    fn as_utf8(&self) -> (r: Option<&str>) ensures r is Some == self.sp_has_utf8();
-    fn as_binary(&self) -> (r: Option<&[u8]>) ensures r is Some == self.sp_has_binary();
-    fn as_float(&self) -> (r: Option<&f64>) ensures r is Some == self.sp_has_float();
+    fn as_unsigned_int(&self) -> (r: Option<&u64>) ensures (match r { Some(v) => self.sp_uint() == Some(*v), None => self.sp_uint() is None });
+    fn as_signed_int(&self) -> (r: Option<&i64>) ensures (match r { Some(v) => self.sp_int() == Some(*v), None => self.sp_int() is None });
+    fn as_utf8(&self) -> (r: Option<&str>) ensures (match r { Some(v) => self.sp_str() == Some(v@), None => self.sp_str() is None });
+    fn as_binary(&self) -> (r: Option<&[u8]>) ensures (match r { Some(v) => self.sp_bin() == Some(v@), None => self.sp_bin() is None });
+    fn as_float(&self) -> (r: Option<&f64>) ensures (match r { Some(v) => self.sp_float() == Some(*v), None => self.sp_float() is None });
 }
 /// "internally consistent specification" (documented precondition of write(); C18 establishes it for derived specifications):
 /// the accessor that matches the declared type of the tag's id answers, for the tag and for every descendant
 pub open spec fn sp_consistent<T: EbmlSpecification>(t: &T) -> bool {
     match T::sp_type(t.sp_id()) {
         Some(TagDataType::Master) => t.sp_master() is Some,
-        Some(TagDataType::UnsignedInt) => t.sp_has_uint(),
-        Some(TagDataType::Integer) => t.sp_has_int(),
-        Some(TagDataType::Utf8) => t.sp_has_utf8(),
-        Some(TagDataType::Binary) => t.sp_has_binary(),
-        Some(TagDataType::Float) => t.sp_has_float(),
-        None => t.sp_has_binary(),
+        Some(TagDataType::UnsignedInt) => t.sp_uint() is Some,
+        Some(TagDataType::Integer) => t.sp_int() is Some,
+        Some(TagDataType::Utf8) => t.sp_str() is Some,
+        Some(TagDataType::Binary) => t.sp_bin() is Some,
+        Some(TagDataType::Float) => t.sp_float() is Some,
+        None => t.sp_bin() is Some,
     }
 }
 /// documented precondition of the writer ("internally consistent specification"): every value of the tag type is consistent
@@ -96,6 +96,114 @@ pub open spec fn sp_stack_wf(s: Seq<OpenTag>, len: int) -> bool {
     }
 }
 pub open spec fn sp_tags_prefix(a: Seq<OpenTag>, b: Seq<OpenTag>) -> bool { a.len() <= b.len() && b.subrange(0, a.len() as int) =~= a }
+
+// ---- the writer as a function (C09): what each call does to the abstract state, for runs without I/O errors -------------
+
+/// ASSUMPTION (determinism of pure Rust functions): the size field size_vint_with_length::<w>(n) (w in 1..=8) or
+/// size_vint(n) (w = 0) returns, and whether it returns one; engine K proves what these bytes are (sp_size_field)
+pub uninterp spec fn sp_size_enc(n: u64, w: usize) -> Seq<u8>;
+pub uninterp spec fn sp_size_ok(n: u64, w: usize) -> bool;
+/// likewise for 8u8.as_vint_with_length::<w>()
+pub uninterp spec fn sp_vint8_enc(w: usize) -> Seq<u8>;
+pub uninterp spec fn sp_vint8_ok(w: usize) -> bool;
+/// likewise the bytes write_unsigned_int_tag::<w> / write_signed_int_tag::<w> append (None: the call fails); engine K
+/// (k_w_uint_*, k_w_int_*) proves what they are for every value, id and width
+pub uninterp spec fn sp_uint_elem(id: u64, v: u64, w: usize) -> Option<Seq<u8>>;
+pub uninterp spec fn sp_int_elem(id: u64, v: i64, w: usize) -> Option<Seq<u8>>;
+pub open spec fn sp_bytes_elem(id: u64, data: Seq<u8>, w: usize) -> Option<Seq<u8>> {
+    if sp_size_ok(data.len() as u64, w) { Some(sp_id_bytes(id) + sp_size_enc(data.len() as u64, w) + data) } else { None }
+}
+pub open spec fn sp_float_elem(id: u64, v: f64, w: usize) -> Option<Seq<u8>> {
+    if w == 0 { Some(sp_id_bytes(id) + seq![0x88u8] + sp_f64_be(v)) } else if sp_vint8_ok(w) { Some(sp_id_bytes(id) + sp_vint8_enc(w) + sp_f64_be(v)) } else { None }
+}
+/// abstract state of a writer: bytes handed over, bytes pending, open masters
+pub struct WS { pub out: Seq<u8>, pub pending: Seq<u8>, pub stack: Seq<OpenTag> }
+/// a width outside 1..=8 stored for a master means "shortest"
+pub open spec fn sp_wn(w: usize) -> usize { if 1 <= w <= 8 { w } else { 0 } }
+/// closing the innermost master `id`
+pub open spec fn sp_end(s: WS, id: u64) -> Option<WS> {
+    if s.stack.len() == 0 || s.stack.last().0 != id { None }
+    else if s.stack.last().1 is Unknown { Some(WS { out: s.out, pending: s.pending, stack: s.stack.drop_last() }) }
+    else {
+        let st = s.stack.last().1->Known_0 as int;
+        let n = (s.pending.len() - st) as u64;
+        let w = sp_wn(s.stack.last().2);
+        if sp_size_ok(n, w) { Some(WS { out: s.out, pending: s.pending.subrange(0, st) + sp_id_bytes(id) + sp_size_enc(n, w) + s.pending.subrange(st, s.pending.len() as int), stack: s.stack.drop_last() }) } else { None }
+    }
+}
+/// everything pending is handed over unless a known-size master is open
+pub open spec fn sp_flush(s: WS) -> WS {
+    if sp_any_known(s.stack) { s } else { WS { out: s.out + s.pending, pending: Seq::<u8>::empty(), stack: s.stack } }
+}
+pub open spec fn sp_append(s: WS, e: Option<Seq<u8>>) -> Option<WS> {
+    match e { Some(b) => Some(sp_flush(WS { out: s.out, pending: s.pending + b, stack: s.stack })), None => None }
+}
+/// the verdict of validate_tag_path on (id, open masters) — unit path_matcher proves what it computes
+pub uninterp spec fn sp_valid_path<T: EbmlSpecification>(id: u64, stack: Seq<OpenTag>) -> bool;
+/// is_vint(id) — engine K (C15) proves what it computes
+pub uninterp spec fn sp_is_vint(id: u64) -> bool;
+pub open spec fn sp_should_validate<T: EbmlSpecification>(t: &T) -> bool {
+    T::sp_type(t.sp_id()) is Some && !sp_is_end(t)
+}
+/// write_advanced(tag, options) as a function of the state; `w` = requested width (0 = none), `unk` = unknown-size start.
+/// None = rejected (the state is then unchanged, C19).
+pub open spec fn sp_write<T: EbmlSpecification>(s: WS, t: &T, w: usize, unk: bool) -> Option<WS>
+    decreases t.height(), 2nat, 0nat
+{
+    let id = t.sp_id();
+    if unk {
+        if T::sp_type(id) == Some(TagDataType::Master) { Some(WS { out: s.out, pending: s.pending + sp_id_bytes(id) + sp_unknown8(), stack: s.stack.push((id, EBMLSize::Unknown, 0usize)) }) } else { None }
+    } else if sp_should_validate(t) && !sp_valid_path::<T>(id, s.stack) { None }
+    else { sp_explicit(s, t, w) }
+}
+/// write_explicit_sized::<w>(tag) as a function of the state
+pub open spec fn sp_explicit<T: EbmlSpecification>(s: WS, t: &T, w: usize) -> Option<WS>
+    decreases t.height(), 1nat, 0nat
+{
+    let id = t.sp_id();
+    match T::sp_type(id) {
+        Some(TagDataType::UnsignedInt) => if t.sp_uint() is Some { sp_append(s, sp_uint_elem(id, t.sp_uint()->Some_0, w)) } else { None },
+        Some(TagDataType::Integer) => if t.sp_int() is Some { sp_append(s, sp_int_elem(id, t.sp_int()->Some_0, w)) } else { None },
+        Some(TagDataType::Utf8) => if t.sp_str() is Some { sp_append(s, sp_bytes_elem(id, sp_utf8(t.sp_str()->Some_0), w)) } else { None },
+        Some(TagDataType::Binary) => if t.sp_bin() is Some { sp_append(s, sp_bytes_elem(id, t.sp_bin()->Some_0, w)) } else { None },
+        Some(TagDataType::Float) => if t.sp_float() is Some { sp_append(s, sp_float_elem(id, t.sp_float()->Some_0, w)) } else { None },
+        Some(TagDataType::Master) => match t.sp_master() {
+            Some(Master::Start) => Some(sp_flush(sp_start(s, id, w))),
+            Some(Master::End) => match sp_end(s, id) { Some(s2) => Some(sp_flush(s2)), None => None },
+            Some(Master::Full(children)) => {
+                let s1 = sp_start(s, id, w);
+                match sp_children(s1, children@, 0, s1.stack.len() as int, t.height()) {
+                    Some(s2) => match sp_end(s2, id) { Some(s3) => Some(sp_flush(s3)), None => None },
+                    None => None,
+                }
+            },
+            None => None,
+        },
+        None => if !sp_is_vint(id) || t.sp_bin() is None { None } else { sp_append(s, sp_bytes_elem(id, t.sp_bin()->Some_0, w)) },
+    }
+}
+/// opening a known-size master: its header is back-patched at the current end of the pending bytes, in width `w`
+pub open spec fn sp_start(s: WS, id: u64, w: usize) -> WS {
+    WS { out: s.out, pending: s.pending, stack: s.stack.push((id, EBMLSize::Known(s.pending.len() as usize), w)) }
+}
+/// the width write_advanced passes on for the requested size_byte_length
+pub open spec fn sp_req_width(o: Option<usize>) -> usize { match o { Some(k) => if 1 <= k <= 8 { k } else { 0 }, None => 0 } }
+/// the children of a Full master, written one after the other with write(); a child may not close the master itself
+pub open spec fn sp_children<T: EbmlSpecification>(s: WS, ch: Seq<T>, i: int, count: int, h: nat) -> Option<WS>
+    decreases h, 0nat, ch.len() - i
+{
+    if i < 0 || i >= ch.len() { Some(s) }
+    else if ch[i].height() >= h { None }   // never the case (a tag value is a finite tree); makes the definition well-founded
+    else if s.stack.len() == count && ch[i].sp_master() matches Some(Master::End) { None }
+    else { match sp_write(s, &ch[i], 0, false) { Some(s2) => sp_children(s2, ch, i + 1, count, h), None => None } }
+}
+/// C09, flat presentation: the same children written one after the other at top level
+pub open spec fn sp_seq<T: EbmlSpecification>(s: WS, ch: Seq<T>, i: int) -> Option<WS>
+    decreases ch.len() - i
+{
+    if i < 0 || i >= ch.len() { Some(s) }
+    else { match sp_write(s, &ch[i], 0, false) { Some(s2) => sp_seq(s2, ch, i + 1), None => None } }
+}
 
 // ---- R4 helpers: expressions outside this Verus' subset, outlined with ASSUMED contracts -----------------------------
 
@@ -119,15 +227,17 @@ fn r4_len_minus(len: usize, start: usize) -> (r: u64)
 #[verifier::external_body]
 fn r4_size_wl<const N: usize>(size: u64) -> (r: Result<[u8; N], TagWriterError>)
     ensures
-        r matches Ok(f) ==> (1 <= N <= 8 ==> sp_header_size(f@, size as int, N)),
+        r matches Ok(f) ==> (1 <= N <= 8 ==> sp_header_size(f@, size as int, N)) && f@ == sp_size_enc(size, N),
         r matches Err(e) ==> e is TagSizeError,
+        r is Ok <==> sp_size_ok(size, N),
 { unimplemented!() }
 /// `size_vint(size).map_err(|e| TagWriterError::TagSizeError(e.to_string()))?` without the `?`
 #[verifier::external_body]
 fn r4_size_min(size: u64) -> (r: Result<Vec<u8>, TagWriterError>)
     ensures
-        r matches Ok(f) ==> sp_header_size(f@, size as int, 0),
+        r matches Ok(f) ==> sp_header_size(f@, size as int, 0) && f@ == sp_size_enc(size, 0),
         r matches Err(e) ==> e is TagSizeError,
+        r is Ok <==> sp_size_ok(size, 0),
         size < 0xFF_FFFF_FFFF_FFFF ==> r is Ok,   // k_size_vint: Err exactly for n >= 2^56 - 1
 { unimplemented!() }
 /// `buf.splice(start..start, id.to_be_bytes().iter().skip_while(|&v| *v == 0u8).chain(size_vint.iter()).copied());`
@@ -181,10 +291,12 @@ fn r4_unknown_size_error(tag_type: Option<TagDataType>) -> (r: TagWriterError)
 #[verifier::external_body]
 fn r4_should_validate<T: EbmlSpecification>(tag: &T, tag_id: u64, tag_type: Option<TagDataType>) -> (r: bool)
     requires tag_type == T::sp_type(tag_id), tag_id == tag.sp_id(), sp_consistent(tag),
+    ensures r == sp_should_validate(tag),   // transliteration of the outlined expression
 { unimplemented!() }
 /// `validate_tag_path::<TSpec>(tag_id, open_tags.iter().map(|t| (t.0, Known(0), t.2)))` — pure (unit path_matcher proves what it computes)
 #[verifier::external_body]
 fn r4_validate<T: EbmlSpecification>(tag_id: u64, open_tags: &Vec<OpenTag>) -> (r: bool)
+    ensures r == sp_valid_path::<T>(tag_id, open_tags@),
 { unimplemented!() }
 /// the error value `TagWriterError::UnexpectedTag { tag_id, current_path: open_tags.iter().map(|t| t.0).collect() }`
 #[verifier::external_body]
@@ -194,6 +306,7 @@ fn r4_unexpected_tag(tag_id: u64, open_tags: &Vec<OpenTag>) -> (r: TagWriterErro
 /// `is_vint(tag_id)` (tools.rs; C15 proves it by engine K) — a pure boolean here
 #[verifier::external_body]
 fn is_vint(id: u64) -> (r: bool)
+    ensures r == sp_is_vint(id),
 { unimplemented!() }
 /// `n.try_into().expect("couldn't convert usize to u64")` — cannot fail on a 64-bit target (ASSUMPTION: usize is 64 bits)
 #[verifier::external_body]
@@ -219,6 +332,53 @@ fn r4_extend_f64(buf: &mut Vec<u8>, data: &f64)
 #[verifier::external_body]
 fn r4_vint8_wl<const N: usize>() -> (r: Result<[u8; N], TagWriterError>)
     ensures
-        r matches Ok(f) ==> (1 <= N <= 8 ==> sp_header_size(f@, 8, N)),
+        r matches Ok(f) ==> (1 <= N <= 8 ==> sp_header_size(f@, 8, N)) && f@ == sp_vint8_enc(N),
         r matches Err(e) ==> e is TagSizeError,
+        r is Ok <==> sp_vint8_ok(N),
 { unimplemented!() }
+
+// ---- C09: one Full item == Start, the children, End (lemmas over the specification the real writer is proved to implement) ----
+
+/// if the children are accepted inside a Full master, writing them one after the other at top level goes through the same states
+pub proof fn lemma_children_seq<T: EbmlSpecification>(s: WS, ch: Seq<T>, i: int, count: int, h: nat)
+    requires sp_children(s, ch, i, count, h) is Some, 0 <= i,
+    ensures sp_seq(s, ch, i) == sp_children(s, ch, i, count, h),
+    decreases ch.len() - i
+{
+    if i < ch.len() {
+        let s2 = sp_write(s, &ch[i], 0, false);
+        assert(s2 is Some);
+        lemma_children_seq(s2->Some_0, ch, i + 1, count, h);
+    }
+}
+/// C09: from every state, whenever write(Full(children), width w) is accepted, so are write(Start, width w), each child
+/// in turn, and write(End) (whatever width is passed with End) — and they leave byte for byte the same state
+/// (destination bytes, pending bytes, open masters).
+pub proof fn lemma_full_equals_flat<T: EbmlSpecification>(s: WS, full: &T, start: &T, end: &T, w: usize, w_end: usize)
+    requires
+        T::sp_type(full.sp_id()) == Some(TagDataType::Master),
+        start.sp_id() == full.sp_id(), end.sp_id() == full.sp_id(),
+        full.sp_master() is Some, full.sp_master()->Some_0 is Full,
+        start.sp_master() == Some(Master::<T>::Start), end.sp_master() == Some(Master::<T>::End),
+        sp_write(s, full, w, false) is Some,
+    ensures
+        sp_write(s, start, w, false) is Some,
+        sp_seq(sp_write(s, start, w, false)->Some_0, full.sp_master()->Some_0->Full_0@, 0) is Some,
+        sp_write(sp_seq(sp_write(s, start, w, false)->Some_0, full.sp_master()->Some_0->Full_0@, 0)->Some_0, end, w_end, false) == sp_write(s, full, w, false),
+{
+    let id = full.sp_id();
+    let ch = full.sp_master()->Some_0->Full_0@;
+    let s1 = sp_start(s, id, w);
+    assert(sp_should_validate(full) && sp_should_validate(start) && !sp_should_validate(end));
+    assert(sp_write(s, full, w, false) == sp_explicit(s, full, w));
+    assert(sp_write(s, start, w, false) == sp_explicit(s, start, w));
+    // a known-size master is open in s1: nothing is flushed by the Start
+    assert(s1.stack[s1.stack.len() - 1].1 is Known);
+    assert(sp_any_known(s1.stack));
+    assert(sp_explicit(s, start, w) == Some(s1));
+    let c = sp_children(s1, ch, 0, s1.stack.len() as int, full.height());
+    assert(c is Some);
+    lemma_children_seq(s1, ch, 0, s1.stack.len() as int, full.height());
+    let s2 = c->Some_0;
+    assert(sp_write(s2, end, w_end, false) == sp_explicit(s2, end, w_end));
+}
